@@ -373,3 +373,46 @@ def req_merge_ranges(facts):
         else:
             out.append(ob("req.merge-range", key, calls[0]["loc"], "violated", "with hra_=%s std::inplace_merge gets first=%r middle=%r last=%r: runs of %r and %r items instead of num_items_ and other.get_num_items() (num_items_ is only advanced afterwards) - the appended run is not merged in, the level is left 'old sorted, then new sorted' while flagged sorted" % (str(hra).lower(), first, middle, last, middle - first, last - middle), fn["qname"]))
     return out
+
+
+def unsigned_field_minus_param(facts, fams=("req", "kll", "quantiles")):
+    """`field - param` in unsigned arithmetic wraps to a huge value when the parameter exceeds the field, so every caller has to pass
+    an argument that is provably <= the field: `std::min(x, field)` (directly or through a const local).  REQ: the number of
+    sections to compact is clamped to num_sections_; without the clamp the non-compacted part `(num_sections_ - secs) * size`
+    wraps for small k once the sections stop doubling and the compaction eats into the protected half of the buffer."""
+    fns = functions_by(facts, list(fams))
+    out = []
+    sites = []
+    for pat, fn in sorted(fns.items()):
+        params = {x["d"]: (i, x["n"]) for i, x in enumerate(fn["params"])}
+
+        def v(x):
+            if x.get("k") == "Bin" and x.get("op") == "-" and (x.get("t") or "").startswith("unsigned"):
+                l, r = strip_all(x["l"]), strip_all(x["r"])
+                if r.get("k") == "Ref" and r.get("d") in params and l.get("k") == "Member" and l.get("isfield") and strip_all(l.get("b") or {}).get("k") == "This":
+                    sites.append((fn, params[r["d"]], l["f"], x))
+        walk(fn["body"], v)
+    for fn, (pi, pname), fld, x in sites:
+        callers = 0
+        for pat2, g in sorted(fns.items()):
+            if g.get("rect") != fn.get("rect"):
+                continue
+            decls = local_decls(g)
+            calls = []
+            walk(g["body"], lambda n: calls.append(n) if n.get("k") == "Call" and n.get("cpat") == fn["pat"] and len(n.get("args", [])) > pi else None)
+            for c in calls:
+                callers += 1
+                a = strip_all(c["args"][pi])
+                if a.get("k") == "Ref" and a.get("d") in decls and decls[a["d"]].get("init") is not None and decls[a["d"]].get("const"):
+                    a = strip_all(decls[a["d"]]["init"])
+                key = "%s:%s<=%s@%s" % (short(fn["patq"]), pname, fld, g["name"])
+                ok = a.get("k") == "Call" and a.get("cname") == "min" and any(is_this_field(y, (fld,)) for y in a.get("args", []))
+                if ok:
+                    out.append(ob("unsigned.sub-clamped", key, c["loc"], "discharged", "%s passes min(..., %s): `%s - %s` cannot wrap" % (g["name"], fld, fld, pname), g["qname"]))
+                else:
+                    out.append(ob("unsigned.sub-clamped", key, c["loc"], "violated", "%s passes `%s` for `%s`, which %s subtracts from the unsigned field `%s` (%s): nothing bounds the argument by %s, so the difference wraps when it is larger (REQ: for small k the schedule keeps counting after the sections stop doubling; the compaction then covers the protected, exact half of the buffer)" % (g["name"], txt(a)[:60], pname, fn["name"], fld, txt(x), fld), g["qname"]))
+        if not callers:
+            out.append(ob("unsigned.sub-clamped", "%s:%s<=%s:callers" % (short(fn["patq"]), pname, fld), fn["pat"], "unrecognised", "no caller found", fn["qname"]))
+    if not sites:
+        out.append(ob("unsigned.sub-clamped", "anchor", "", "unrecognised", "no unsigned field - parameter subtraction found", ""))
+    return out
